@@ -63,23 +63,30 @@ class Ctx:
             self._X = ExcFlow(self.P, self.R).compute()
         return self._X
 
+    @property
+    def X0(self):
+        """Exception flow under the 'complete database' assumption (db reads never raise)."""
+        if "X0" not in self.cache:
+            self.cache["X0"] = ExcFlow(self.P, self.R, complete_db=True).compute()
+        return self.cache["X0"]
+
     # obligations ------------------------------------------------------
     def ob(self, construct, loc, verdict, reason, nontrivial=False, witness=None, rule=None):
         o = Ob(rule or self.cur_rule, construct, loc, verdict, reason, nontrivial, witness)
         self.obs.append(o)
         return o
 
-    def ok(self, construct, loc, reason, nontrivial=True):
-        return self.ob(construct, loc, DISCHARGED, reason, nontrivial)
+    def ok(self, construct, loc, reason, nontrivial=True, rule=None):
+        return self.ob(construct, loc, DISCHARGED, reason, nontrivial, rule=rule)
 
-    def bad(self, construct, loc, reason, witness=None):
-        return self.ob(construct, loc, VIOLATION, reason, True, witness)
+    def bad(self, construct, loc, reason, witness=None, rule=None):
+        return self.ob(construct, loc, VIOLATION, reason, True, witness, rule=rule)
 
-    def unsure(self, construct, loc, reason):
-        return self.ob(construct, loc, INCONCLUSIVE, reason, True)
+    def unsure(self, construct, loc, reason, rule=None):
+        return self.ob(construct, loc, INCONCLUSIVE, reason, True, rule=rule)
 
-    def info(self, construct, loc, reason):
-        return self.ob(construct, loc, INFO, reason, False)
+    def info(self, construct, loc, reason, rule=None):
+        return self.ob(construct, loc, INFO, reason, False, rule=rule)
 
     def expect_min(self, what, found, minimum, why):
         """Fail closed when a rule matches fewer instances than were confirmed by hand."""
